@@ -97,6 +97,17 @@ CHECKS: dict[str, tuple[str, str, str, str]] = {
         "Trusted: ast, stdlib re on folded constants, sa/fold.py, sa/tab.py, sa/relang.py.",
         "DESIGN.md §3 C20",
     ),
+    "C06": (
+        "classification tables by path tabulation + who-writes analysis of license_map + truth tables + DFA equivalence + zero-count lint with positive control",
+        "Decides the per-identifier cell table of FileReport.generate (plus-form, on-map, provided -> bad / missing /"
+        " recorded) against the specification on every path, substitutes the who-writes analysis of"
+        " Project.license_map into it and compares with `bad iff neither SPDX nor LicenseRef-` over all cells, the"
+        " used/unused comprehensions as boolean formulas, the LICENSES/** scan table (skip, no-extension, stem fallback,"
+        " duplicate, register), the LicenseRef- language (DFA equivalence, identifiers of any length), and absence of"
+        " case folding on the lint path. license_expression's license_keys (library) is not decided.",
+        "Trusted: ast, sa/tab.py, sa/relang.py, sa/fold.py. Deprecated/bad classification of LICENSES/ entries is in C01-R3.",
+        "DESIGN.md §3 C06",
+    ),
 }
 
 PENDING_REASON = "check not implemented yet (build in progress; see DESIGN.md §7)"
